@@ -1,9 +1,9 @@
-\* liveness under fairness: 1 connection x 2 callers x 2 hooks
+\* liveness under fairness: 1 connection x 2 callers x 1 hook
 CONSTANTS
   Conns = {c1}
   Callers = {k1, k2}
-  Hooks = {h1, h2}
-  BeyondHooks = {h2}
+  Hooks = {h1}
+  BeyondHooks = {h1}
   MaxReq = 1
   Transport = "standard"
   ServerRun = TRUE
